@@ -332,4 +332,27 @@ theorem decDigits_safe (n : Nat) : ∀ b ∈ decDigits n, b ≠ 47 ∧ b ≠ 92 
   have h2 : c.toNat ≤ 57 := this.2
   omega
 
+theorem map_toNat_injective : ∀ (l1 l2 : List Char), l1.map Char.toNat = l2.map Char.toNat → l1 = l2 := by
+  intro l1
+  induction l1 with
+  | nil => intro l2 h; cases l2 <;> simp_all
+  | cons c l1 ih =>
+    intro l2 h
+    cases l2 with
+    | nil => simp at h
+    | cons d l2 =>
+      simp only [List.map_cons, List.cons.injEq] at h
+      have hcd : c = d := by
+        have := congrArg Char.ofNat h.1
+        simpa [Char.ofNat_toNat] using this
+      rw [hcd, ih l2 h.2]
+
+/-- different numbers have different decimal digits (`Nat.ofDigitChars` reads them back) -/
+theorem decDigits_injective : Function.Injective decDigits := by
+  intro a b h
+  have h1 : Nat.toDigits 10 a = Nat.toDigits 10 b := map_toNat_injective _ _ h
+  have h2 := congrArg (fun l => Nat.ofDigitChars 10 l 0) h1
+  simp only [Nat.ofDigitChars_toDigits (by decide : 1 < 10) (by decide : 10 ≤ 10)] at h2
+  exact h2
+
 end Mxl.C19
